@@ -378,6 +378,12 @@ def render_file(f, L):
                 out += L.nl(4) + "define" + L.ws() + rn + L.ows() + ":" + L.ows(" ") + render_expr(e, L)
     for c in f["conds"]:
         out += L.nl(0) + render_condition(c, L)
+    # the last content line may carry trailing blanks and a trailing comment too, with or without a final
+    # line end (the pre-pass trims trailing newlines, so what follows the last token reaches EOF)
+    if L.rng.random() < L.wild * 0.5:
+        out += L.rng.choice(["", " ", "   "])
+    if L.rng.random() < L.comments * 2:
+        out += L.rng.choice([" # ", "  # ", " #", "   #x "]) + L.rng.choice(["note", "a # b", "type z", ""])
     if L.rng.random() < 0.7:
         out += L.eol()
         while L.rng.random() < L.wild * 0.3:
@@ -426,3 +432,83 @@ def model_eq_ws(a, b):
         m = canon_model(m)
         return [m[0], m[1], [[k, [c[0], strip_expr_ws(c[1]), c[2], c[3]]] for k, c in m[2]]]
     return norm(a) == norm(b)
+
+
+# ---------------------------------------------------------------------------------------------
+# random wire models (printer side: C02, C13, C14, C08)
+# ---------------------------------------------------------------------------------------------
+
+def gen_userset(rng, depth, rels, p_this=0.25, degenerate=0.0):
+    k = rng.random()
+    if degenerate and k < degenerate:
+        return rng.choice([[0], [1, 0], [4], [5], [4, [2, S("a")]], [5, [1, 1]], [6, [0], [2, S("a")]]])
+    if k < p_this:
+        return [1, 1]
+    if depth <= 0 or k < 0.55:
+        if rng.random() < 0.7:
+            return [2, S(rng.choice(rels))]
+        return [3, S(rng.choice(rels)), S(rng.choice(rels))]
+    op = rng.choice([4, 4, 5, 6])
+    if op == 6:
+        return [6, gen_userset(rng, depth - 1, rels, p_this, degenerate), gen_userset(rng, depth - 1, rels, p_this, degenerate)]
+    return [op] + [gen_userset(rng, depth - 1, rels, p_this, degenerate) for _ in range(rng.choice([2, 2, 3, 4]))]
+
+
+def count_this(u):
+    if u[0] == 1:
+        return 1
+    if u[0] in (4, 5):
+        return sum(count_this(c) for c in u[1:])
+    if u[0] == 6:
+        return count_this(u[1]) + count_this(u[2])
+    return 0
+
+
+def gen_wire_model(rng, modular=None, degenerate=0.0, p_this=0.25, max_types=4, max_rels=4, depth=3):
+    names = Names(rng, 0.15)
+    if modular is None:
+        modular = rng.random() < 0.4
+    tnames = names.distinct(rng.randint(1, max_types))
+    modules = ["core", "wiki", "a"]
+    files = ["core.fga", "z.fga", "a/b.fga", ""]
+    cnames = [c for c in COND_IDS[:4] if rng.random() < 0.4]
+    types = []
+    for tn in tnames:
+        rnames = names.distinct(rng.randint(0, max_rels))
+        rels = []
+        metas = []
+        for rn in rnames:
+            u = gen_userset(rng, rng.randint(0, depth), rnames, p_this, degenerate)
+            rels.append([S(rn), u])
+            refs = []
+            if count_this(u) > 0 or rng.random() < 0.1:
+                for _ in range(rng.choice([1, 1, 2, 3]) if rng.random() > degenerate * 0.5 else 0):
+                    refs.append(ref_wire(gen_restriction(rng, tnames, cnames, names)))
+            mod = S(rng.choice(modules)) if modular and rng.random() < 0.4 else []
+            fil = [S(rng.choice(files))] if modular and rng.random() < 0.5 else []
+            if rng.random() > degenerate * 0.5:
+                metas.append([S(rn), [refs, mod, fil]])
+        if modular:
+            tmod = S(rng.choice(modules)) if rng.random() < 0.85 else []
+            tfile = [S(rng.choice(files))] if rng.random() < 0.7 else []
+            meta = [[metas, tmod, tfile]]
+        elif metas or rng.random() < 0.2:
+            meta = [[metas, [], []]]
+        else:
+            meta = []
+        types.append([S(tn), rels, meta])
+    conds = []
+    for cn in cnames:
+        c = gen_condition(rng, cn, hostile=False)
+        ps = []
+        for (p, cont, ty) in c["params"]:
+            if cont:
+                g = [[TYPE_NUM[ty]]] if rng.random() > degenerate else rng.choice([[], [[TYPE_NUM[ty]], [3]]])
+                ps.append([S(p), [TYPE_NUM[cont]] + g])
+            else:
+                n = TYPE_NUM[ty] if rng.random() > degenerate else rng.choice([0, 1, 9, 10, 12, 77])
+                ps.append([S(p), [n]])
+        cm = [[S(rng.choice(modules)), [S(rng.choice(files))] if rng.random() < 0.6 else []]] if modular and rng.random() < 0.8 else []
+        key = cn if rng.random() > degenerate * 0.3 else cn + "x"
+        conds.append([S(key), [S(cn), S(c["expr"]), ps, cm]])
+    return [S(rng.choice(["1.1", "1.2"])), types, conds]
